@@ -301,10 +301,14 @@ func classify(o outcome) []finding {
 		if o.StartStuck == "before-shutdown-complete" && o.pat.StartWaits && o.pat.RLockers > 0 {
 			add("shutdown-then-start/start-holds-pool-mutex-while-waiting-for-shutdown",
 				"Shutdown(); Start() while the shutdown is still draining never returns: Start holds the pool mutex while it waits for ShutdownComplete, but the dispatcher (and any task calling Submit) needs that mutex in IsRunning() to finish the shutdown (%s, counter=%d queue=%d)", o.Pattern, o.Counter, o.Queue)
-		} else {
-			add("shutdown-then-start/start-never-returns-"+o.StartStuck, "Start() is parked for ever at structural quiescence (%s, counter=%d queue=%d)", o.Pattern, o.Counter, o.Queue)
+			return out
 		}
-		return out
+		if !o.pat.StartWaits {
+			add("shutdown-then-start/start-never-returns-"+o.StartStuck, "Start() is parked for ever at structural quiescence (%s, counter=%d queue=%d)", o.Pattern, o.Counter, o.Queue)
+			return out
+		}
+		// Start legitimately waits for a shutdown that never completes: judge that shutdown
+		o.ShutdownCalled, o.ShutdownReturned, o.WaitReturned = true, true, false
 	}
 	if o.ShutdownCalled && !o.ShutdownReturned {
 		add("shutdown-call-never-returns", "Shutdown() is parked for ever at structural quiescence (%s)", o.Pattern)
